@@ -117,7 +117,14 @@ func (app *App) mountStartupProcess() {
 		app.mountFields.subAppsRoutesAdded.Do(func() {
 			app.processSubAppsRoutes()
 		})
+		return
 	}
+
+	// Render looks the view engines up by these keys; generate them at startup also for an
+	// app without sub-apps, instead of lazily (and unsynchronised) in the first Render calls
+	app.mountFields.subAppsProcessed.Do(func() {
+		app.generateAppListKeys()
+	})
 }
 
 // generateAppListKeys generates app list keys for Render, should work after appendSubAppLists
